@@ -145,7 +145,10 @@ texts = st.one_of(
     st.text(max_size=6),
     st.text(alphabet=st.characters(min_codepoint=0x10000, max_codepoint=0x10FFFF), max_size=3),
 )
-scalars = st.one_of(st.none(), st.booleans(), ints, floats_finite, texts)
+# long texts whose UTF-8 length straddles typical buffer / truncation boundaries, multi-byte characters at every alignment
+long_texts = st.tuples(st.sampled_from(["é", "日", "😀", "a", "xé"]), st.sampled_from([100, 170, 171, 255, 256, 257, 341, 400, 511, 512, 513, 1023, 1024, 1025, 2000]), st.integers(0, 3)).map(
+    lambda t: "x" * t[2] + t[0] * max(1, t[1] // len(t[0].encode("utf-8"))))
+scalars = st.one_of(st.none(), st.booleans(), ints, floats_finite, texts, texts, long_texts)
 scalars_with_bad = st.one_of(scalars, floats_bad)
 
 
@@ -159,7 +162,7 @@ values_with_bad = json_values(scalars_with_bad)
 
 def rules(leaf):
     var = st.one_of(st.sampled_from(KEYS).map(lambda k: {"var": k}), st.sampled_from(KEYS).map(lambda k: {"var": [k, "dflt"]}), st.just({"var": ""}))
-    base = st.one_of(leaf, var, st.just({"+": ["x"]}), st.just({"==": [1]}))
+    base = st.one_of(leaf, var, st.just({"+": ["x"]}), st.just({"==": [1]}), long_texts.map(lambda t: {"+": [t]}), long_texts.map(lambda t: {"substr": [t, 1, "x"]}), long_texts.map(lambda t: {"var": {t: 1}}))
 
     def node(inner):
         args = st.lists(inner, max_size=4)
@@ -344,6 +347,28 @@ EXTREME_RULES = [
 ]
 
 
+def _tower(op, levels):
+    v = 1
+    for _ in range(levels):
+        v = {op: [v]} if op not in ("map", "reduce") else ({"map": [[1], v]} if op == "map" else {"reduce": [[1], v, 0]})
+    return v
+
+
+def _deep(levels, obj, leaf):
+    v = leaf
+    for _ in range(levels):
+        v = {"k": v} if obj else [v]
+    return v
+
+
+# documents at the depth limit of the text interface (the interpreter's own recursion limit is raised for json.dumps)
+sys.setrecursionlimit(10000)
+DEEP_CASES = [(_tower(op, 60), {"a": 1}) for op in ("!", "cat", "if", "map", "reduce", "+", "merge", "log", "var")]
+for _obj in (False, True):
+    _d = {"needle": _deep(118, _obj, 1), "hay": [_deep(118, _obj, 2), _deep(118, _obj, 1.0)]}
+    DEEP_CASES += [({"in": [{"var": "needle"}, {"var": "hay"}]}, _d), ({"==": [{"var": "needle"}, {"var": "hay.1"}]}, _d), ({"cat": [{"var": "hay"}]}, _d), ({"var": ""}, _d)]
+
+
 def check_total(stats, rule, data, entry):
     what = "%s(%s, %s)" % (entry, describe(rule), describe(data))
     try:
@@ -463,6 +488,16 @@ elif args.prop == "C01":
     )
     # every known corner through both entry points, deterministically
     stats = RESULT["py_total"]
+    for r, d in DEEP_CASES:
+        for entry in ("apply", "apply_serialized"):
+            case_text = "deep document: " + describe([r, d, entry])[:120]
+            mark_current("py_total", describe([r, d, entry]))
+            try:
+                label, nt = check_total(stats, r, d, entry)
+                stats.record(case_text, label + " (deep document)", True)
+            except AssertionError as e:
+                if len(stats.violations) < 5:
+                    stats.violations.append({"case_text": describe([r, d, entry]), "msg": "[%s] %s" % (args.pkg, e), "from": "enumerated"})
     for r in EXTREME_RULES:
         for d in ([1, 2], {"a": [1]}, "héllo", None):
             for entry in ("apply", "apply_serialized"):
